@@ -258,7 +258,10 @@ def t_init(ctx):
 
 
 def verify(S):
-    for name, fn in (("wcs_helpers.WCSHelper.positions", t_positions), ("wcs_helpers.WCSHelper.psf_sky2pix", t_psf),
+    # the spherical primitives the vector / ellipse conversions are built on, by their C17 contracts
+    from contracts import c17
+    for name, fn in (("angle_tools.gcd", c17.t_gcd), ("angle_tools.bear", c17.t_bear), ("angle_tools.translate", c17.t_translate),
+                     ("wcs_helpers.WCSHelper.positions", t_positions), ("wcs_helpers.WCSHelper.psf_sky2pix", t_psf),
                      ("wcs_helpers.WCSHelper.vectors", t_vectors), ("wcs_helpers.WCSHelper.ellipses", t_ellipses),
                      ("wcs_helpers.WCSHelper.__init__", t_init)):
         if S.only and S.only not in name:
